@@ -75,8 +75,11 @@ THEOREMS = [
     "Spydr.Eblif.names_generated_ports",
     "Spydr.Eblif.names_info_std",
     "Spydr.Eblif.latch_generated_ports",
+    "Spydr.Eblif.pin_mirror",
+    "Spydr.Eblif.pin_mirror_elab",
+    "Spydr.Eblif.pin_mirror_bits",
 ]
-MODULES = ["Spydr.Eblif.Props.C18", "Spydr.Eblif.Props.C18RoundTrip", "Spydr.Eblif.Props.C18ReadOk", "Spydr.Eblif.Props.C18Ports", "Spydr.Eblif.Props.C18BlackBox", "Spydr.Eblif.Props.C18FullParse", "Spydr.Eblif.Props.C18GenDefs"]
+MODULES = ["Spydr.Eblif.Props.C18", "Spydr.Eblif.Props.C18RoundTrip", "Spydr.Eblif.Props.C18ReadOk", "Spydr.Eblif.Props.C18Ports", "Spydr.Eblif.Props.C18BlackBox", "Spydr.Eblif.Props.C18FullParse", "Spydr.Eblif.Props.C18GenDefs", "Spydr.Eblif.Props.C18Mirror"]
 
 FINDING = {
     "blackbox-ports": "eblif.blackbox-pins-keep-wire-of-removed-cable",
